@@ -5,7 +5,7 @@ Every stage is a `match` whose arms rebuild a variant of the next enum from the 
 a match into rows  (source variant, guard, target variant, {target field: (source fields mentioned, wrapper)})  so that rules can
 state agreement between stages without freezing any text.
 """
-from .common import walk, src, strip, pat_alternatives, idents_in, tail_expr, AnchorError
+from .common import is_node_scrutinee, walk, src, strip, pat_alternatives, idents_in, tail_expr, AnchorError
 
 
 def _struct_of(body):
@@ -116,7 +116,7 @@ def node_to_nodety(facts):
 def nodety_to_core(facts):
     syn = facts.syn
     cn = syn.one_fn("convert_node", mod="generate::convert")
-    ms = [n for n in walk(cn["body"]) if n.get("k") == "match" and src(n["e"]).replace(" ", "") == "&ast.node"]
+    ms = [n for n in walk(cn["body"]) if n.get("k") == "match" and is_node_scrutinee(n["e"])]
     if len(ms) != 1:
         raise AnchorError(f"convert_node: {len(ms)} matches on &ast.node")
     return struct_arms(ms[0], "NodeTy", "Core"), cn
@@ -175,7 +175,12 @@ def parser_operator_table(facts):
         raise AnchorError("no functions in parse::operation")
     for f in fns:
         for n in walk(f["body"]):
-            if n.get("k") == "match" and src(strip(n["e"])).replace(" ", "") == "lex.token":
+            sc_ = strip(n["e"]) if n.get("k") == "match" else None
+            if sc_ is not None and sc_.get("k") == "field" and sc_.get("name") == "token" and strip(sc_["base"]).get("k") == "path":   # `match <lex>.token`
+                def parsed_locals(body):
+                    return {src(m["pat"]) for m in walk(body) if m.get("k") == "local" and m.get("init") is not None
+                            and any(c.get("k") == "mcall" and c["m"] == "parse" for c in walk(m["init"]))}
+                outer_parsed = parsed_locals(f["body"]) - parsed_locals(n)
                 for a in n["arms"]:
                     for alt in pat_alternatives(a["pat"]):
                         if alt.get("k") not in ("ppath", "pstruct", "ptstruct") or not alt["p"].startswith("Token::"):
@@ -184,14 +189,19 @@ def parser_operator_table(facts):
                         structs = [m for m in walk(a["body"]) if m.get("k") == "struct" and m["p"].startswith("Node::")]
                         eats = [src(strip(m["args"][0])).split("::")[-1] for m in walk(a["body"]) if m.get("k") == "mcall" and m["m"] == "eat" and m["args"]]
                         # the operand parsed after the token
-                        rights = [m for m in walk(a["body"]) if m.get("k") == "local" and src(m["pat"]) in ("right", "to")]
+                        inner_parsed = parsed_locals(a["body"])
                         for st in structs:
-                            rows.append({"token": tok, "node": st["p"].split("::")[1], "fields": {k: src(strip(v)) for k, v in st["fields"]},
-                                         "eaten": eats, "fn": f, "kind": "binary", "parsed_after": [src(r["pat"]) for r in rights]})
+                            fields = {k: src(strip(v)) for k, v in st["fields"]}
+                            # which operand is which: parsed in front of the operator (a local of the function, outside the dispatch) or behind it
+                            # (a local of the arm, after the token was eaten) - whatever the locals are called
+                            roles = {k: ("after" if v in inner_parsed else ("before" if v in outer_parsed else "?")) for k, v in fields.items()}
+                            rows.append({"token": tok, "node": st["p"].split("::")[1], "fields": fields, "roles": roles,
+                                         "eaten": eats, "fn": f, "kind": "binary", "parsed_after": sorted(inner_parsed)})
             if n.get("k") == "if":
                 c = src(strip(n["c"])).replace(" ", "")
-                if c.startswith("it.eat_if(&Token::") and c.endswith(").is_some()"):
-                    tok = c[len("it.eat_if(&Token::"):-len(").is_some()")]
+                m_ = re.fullmatch(r"\(?[a-z_]\w*\.eat_if\(&Token::(\w+)\)\.is_some\(\)\)?", c)
+                if m_:
+                    tok = m_.group(1)
                     structs = [m for m in walk(n["then"]) if m.get("k") == "struct" and m["p"].startswith("Node::")]
                     for st in structs:
                         fields = {k: src(strip(v)) for k, v in st["fields"]}
